@@ -194,7 +194,7 @@ fn main() {
         }
     }
     // ------------------------------------------------ X25519, kx, box, sealed-box nonce, signatures
-    let nkeys = if thorough { 400 } else { 60 };
+    let nkeys = if thorough { 3000 } else { 60 };
     for i in 0..nkeys {
         if !o.mine() {
             continue;
